@@ -1,6 +1,6 @@
 """C07 / C20 rules: iterator level-step coupling and positioning agreement, query guards, sorted-view cache invalidation,
 compaction triggers, density counters."""
-from astu import C, ctxt, gt_pair, eq_const, strip, strip_all, walk, walkp, txt, short, is_this_field, field_name, stmts_of, always_throws, functions_by, local_decls
+from astu import C, ctxt, gt_pair, eq_const, reach, reach_txt, ctext, strip, strip_all, walk, walkp, txt, short, is_this_field, field_name, stmts_of, always_throws, functions_by, local_decls
 from flow import Flow
 from vlib.core import ob
 
